@@ -41,6 +41,11 @@ def _host_self(p):
     return [p]
 
 
+def _box(h, kids):
+    r, t = h
+    return _i(r["size"], 2) + _i(r["plen"]) + _i(r["count"]) + t["payload"] + b"".join(kids)
+
+
 DECLS = [
     dict(name="alen", root="P", nhosts=1, hosts=_host_self,
          src="""
@@ -203,6 +208,29 @@ class P(Packet):
          described=[D("x", "bits", 4, lambda t, r: len(t["d"]) & 15)], tracked={"d": "bytes"},
          encode=lambda hs: _i((hs[0][0]["x"] << 4) | 5) + hs[0][1]["d"] + b";",
          raw=lambda ts, ch: _i((((len(ts[0]["d"]) + ch.draw("wire-x-skew", 2)) & 15) << 4) | 5) + ts[0]["d"] + b";"),
+    # a container of packets of its own class whose Auto reads the same described field of its children
+    # (TLV trees, boxes): hosts are the two children, then the top box
+    dict(name="tree", root="Box", nhosts=3, hosts=lambda p: list(p.boxes) + [p],
+         src="""
+class Nothing(Packet):
+    __bisturi__ = OPTIONS
+    z = Int(1)
+
+class Box(Packet):
+    __bisturi__ = OPTIONS
+    size = Int(2).describe(Auto(lambda p: 4 + len(p.payload) + sum(b.size for b in p.boxes)))
+    plen = Int(1).describe(AutoLength('payload'))
+    count = Int(1).describe(AutoLength('boxes'))
+    payload = Data(plen)
+    boxes = Ref(lambda **k: Box(), default=Nothing()).repeated(count)
+""",
+         ctor=lambda mod, kws, ch: mod.Box(boxes=[mod.Box(**kws[0]), mod.Box(**kws[1])], **kws[2]),
+         described=[D("plen", "int", 1, lambda t, r: len(t["payload"])), D("count", "int", 1, lambda t, r: len(t["boxes"])),
+                    D("size", "int", 2, lambda t, r: 4 + len(t["payload"]) + sum(b.size for b in t["boxes"]))],
+         tracked={"payload": "bytes", "boxes": "ro"},
+         encode=lambda hs: _box(hs[-1], [_box(h, []) for h in hs[:-1]]),
+         raw=lambda ts, ch: (lambda kids: _i(4 + len(ts[-1]["payload"]) + sum(len(k) for k in kids), 2) + _i(len(ts[-1]["payload"])) + _i(len(kids)) + ts[-1]["payload"] + b"".join(kids))(
+             [_i(4 + len(t["payload"]), 2) + _i(len(t["payload"])) + _i(0) + t["payload"] for t in ts[:-1]])),
 ]
 
 OPTION_SETS = [
@@ -256,9 +284,9 @@ class AutoEngine(Engine):
     chunks = {"quick": 40, "thorough": 1000}
     rule = ("each case is a Chooser-generated history of 3..14 (one run in four: up to 45) operations (NEW with/without the described "
             "keyword, SET_TRACKED, SET_DESCRIBED incl. values that do not fit and falsy ones, DEL_DESCRIBED, READ, PACK, UNPACK, REPARSE) "
-            "on 1..3 (or up to 6) live packets of one of twelve freshly defined declarations (AutoLength / Auto on Int, Data and Bits; two "
+            "on 1..3 (or up to 6) live packets of one of thirteen freshly defined declarations (AutoLength / Auto on Int, Data and Bits; two "
             "described fields; a described field after its tracked field, in a nested packet, in element packets of a repeated Ref, "
-            "aligned, chained Autos, tracking a list of packets, explicit value inherited from a Ref prototype) under a drawn "
+            "aligned, chained Autos, tracking a list of packets, explicit value inherited from a Ref prototype, a recursive box whose Auto reads its children's described field) under a drawn "
             "code-generation option set; distinct = digest of (declaration, options, abstract operation list); non-trivial = the "
             "history contains an explicit set or a delete and at least one pack")
     assumptions = ["reference model: a described field reads its explicit value if one is set and not deleted, else the "
@@ -366,7 +394,7 @@ class AutoEngine(Engine):
                 kw = {}
                 explicit = {d.attr: None for d in described}
                 for name, kind in sorted(decl["tracked"].items()):
-                    if ch.chance("give-tracked", 3, 4):
+                    if kind != "ro" and ch.chance("give-tracked", 3, 4):
                         spec = _gen_tracked("bytes" if kind == "bytes" else "ints", ch, uniq)
                         kw[name] = build_tracked(kind, spec)
                         desc.append((hi, name, len(spec)))
@@ -409,7 +437,7 @@ class AutoEngine(Engine):
                 hi = ch.draw("host", min(len(hosts), len(explicits)))
                 h, explicit = hosts[hi], explicits[hi]
                 if op == 1:
-                    name = ch.pick("which-tracked", sorted(decl["tracked"]))
+                    name = ch.pick("which-tracked", sorted(k for k, v in decl["tracked"].items() if v != "ro"))
                     kind = decl["tracked"][name]
                     spec = _gen_tracked("bytes" if kind == "bytes" else "ints", ch, uniq)
                     setattr(h, name, build_tracked(kind, spec))
@@ -497,6 +525,8 @@ class AutoEngine(Engine):
                     for k in range(decl["nhosts"]):
                         t = {}
                         for name, kind in sorted(decl["tracked"].items()):
+                            if kind == "ro":
+                                continue
                             v = _gen_tracked("bytes" if kind == "bytes" else "ints", ch, uniq)
                             t[name] = v[:200] if isinstance(v, bytes) else v
                         ts.append(t)
